@@ -245,7 +245,13 @@ func init() {
 var oddBytes = []string{"\x00", "\x01", " ", "\xff", "\t", "\n", ":", "/", "A", "x", "\x7f", "\u00a0"}
 
 func nearMiss(r *rng, s string) string {
-	switch r.intn(15) {
+	switch r.intn(16) {
+	case 15: // a rune (or wide integer) that truncates to a legal byte
+		if len(s) > 0 {
+			i := r.intn(len(s))
+			return s[:i] + string(rune(int(s[i])+0x100*(1+r.intn(3)))) + s[i+1:]
+		}
+		return "\u0141"
 	case 12: // very long (buffers that grow, length guards)
 		return strings.Repeat(s+r.pick([]string{"", "/", ":", " "}), 8+r.intn(60))
 	case 13: // the naming pattern of the specifications: Modified <metric>
